@@ -287,12 +287,12 @@ def kani_replay(crate_dir, harness, features=None, keep_dir=None, unwind_timeout
                 bins = [b for b in glob.glob(os.path.join(tdir, "**", "*"), recursive=True)
                         if os.path.isfile(b) and os.access(b, os.X_OK) and re.fullmatch(r"[\w]+-[0-9a-f]{16}", os.path.basename(b))]
                 for b in bins:
-                    rc4, out4 = sh(["valgrind", "--error-exitcode=97", "-q", b, "zz_playback::", "--test-threads", "1"],
-                                   cwd=dst, timeout=1200, env=env)
+                    rc4, out4 = sh(["valgrind", "--error-exitcode=97", "-q", "--leak-check=full", "--errors-for-leak-kinds=definite", b,
+                                    "zz_playback::", "--test-threads", "1"], cwd=dst, timeout=1200, env=env)
                     if "running" in out4:
-                        if rc4 == 97 or re.search(r"Invalid (read|write|free)", out4):
+                        if rc4 == 97 or re.search(r"Invalid (read|write|free)|definitely lost", out4):
                             result["reproduced"] = True
-                            result["how"] = "valgrind reports a memory error in the native playback test"
+                            result["how"] = "valgrind reports a memory error or a definite leak in the native playback test"
                             result["log"] = out4[-5000:]
                         else:
                             result["how"] = "native playback test passes, also under valgrind"
